@@ -131,7 +131,7 @@ Definition u1 : content := [117; 49; 117].                (* payloads of the upd
 Definition u2 : content := [118; 50; 118; 118; 118; 118; 118].
 Definition u3 : content := [119; 51].
 
-Definition cfg_get_upd : config := mkCfg 1048576 [(0, cA)] [[OGet 0]; [OUpd 0 u1]].
+Definition cfg_get_upd : config := mkCfg 1048576 [(0, cA)] [[OGet 0]; [OUpd 0 u2]].
 Definition cfg_get_unl : config := mkCfg 1048576 [(0, cA)] [[OGet 0]; [OUnl 0]].
 Definition cfg_upd_unl : config := mkCfg 1048576 [(0, cA)] [[OUpd 0 u1]; [OUnl 0]].
 
@@ -189,6 +189,12 @@ Definition U22 : list config :=
 Definition U31 : list config :=
   flat_map (fun a => flat_map (fun b => map (fun c => mkCfg BIG [(0, cA)] [[a]; [b]; [c]]) (ops1 u3)) (ops1 u2)) (ops1 u1).
 
+(* 2 client threads, 2 operations || 1 operation, files {0,1} both on disk, max_memory 6 (5 + 4 bytes do not fit
+   together: every completion may evict the other file) *)
+Definition opsE (u v : content) : list op := [OGet 0; OGet 1; OUpd 0 u; OUpd 1 v].
+Definition U2112 : list config :=
+  flat_map (fun a => flat_map (fun b => map (fun c => mkCfg 6 [(0, cA); (1, cB)] [[a; b]; [c]]) (opsE u4 u4)) (opsE u3 u1)) (opsE u1 u3).
+
 (* the configuration class of the known defect: two different threads, same file, one may have an entry in
    flight (get or update) while the other unloads it (unload_file, or update_file against a get) *)
 Definition op_file (o : op) : file := match o with OGet f | OUpd f _ | OUnl f => f end.
@@ -239,4 +245,6 @@ Definition U22c := skipn 54 U22.
 Definition U31a := firstn 9 U31.
 Definition U31b := firstn 9 (skipn 9 U31).
 Definition U31c := skipn 18 U31.
+Definition U2112a := firstn 32 U2112.
+Definition U2112b := skipn 32 U2112.
 Definition FUEL : nat := Z.to_nat 50000.
